@@ -195,6 +195,32 @@ ReportedOk(ev, R) ==
           /\ SameBag(Container(ev.post, ev.msg), Container(r.post, ev.msg))
           /\ MovedOk(ev, r)
 
+(* C06 where the container holds an ID more than once (outside PreUnique): *)
+(* WHICH of the equal-named elements a reference means is left open, HOW  *)
+(* MANY are acted upon is not - the k-th mention of an id removes one     *)
+(* element of that id while there is one left, and is reported (one       *)
+(* warning of the documented category) when there is none; elements of     *)
+(* other ids are neither removed nor added.                                *)
+DeleteClasses == {"StoryDelete", "EAStoryDelete", "ItemDelete", "EAItemDelete"}
+CountOf(seq, x) == Cardinality({ i \in DOMAIN seq : seq[i] = x })
+MissAt(m, pre, i) ==
+  \/ m.ids[i].shape # "id"
+  \/ Cardinality({ j \in 1..i : m.ids[j] = m.ids[i] }) > CountOf(pre, m.ids[i].id)
+ActedUponOk(ev) ==
+  \/ ev.msg.cls \notin DeleteClasses \/ ~StatusOk(ev) \/ ~Shaped(ev.msg) \/ PreUnique(ev)
+  \/ (ev.msg.cls \in ItemClasses /\ (AddrIdx(ev.pre, ev.msg) = 0 \/ ~NoRepeat(StoryIds(ev.pre.kids))))
+  \/ LET m    == ev.msg
+         pre  == Container(ev.pre, m)
+         post == Container(ev.post, m)
+         X    == RefIds(m.ids)
+         nMiss == Cardinality({ i \in DOMAIN m.ids : MissAt(m, pre, i) })
+         cat  == IF m.cls \in StoryClasses THEN SNF ELSE INF
+         mentions(x) == Cardinality({ i \in DOMAIN m.ids : m.ids[i].shape = "id" /\ m.ids[i].id = x })
+     IN /\ \A x \in X : CountOf(post, x) = (IF CountOf(pre, x) > mentions(x) THEN CountOf(pre, x) - mentions(x) ELSE 0)
+        /\ \A y \in (Range(pre) \cup Range(post)) \ X : CountOf(post, y) = CountOf(pre, y)
+        /\ Len(ev.warns) = nMiss
+        /\ \A k \in DOMAIN ev.warns : ev.warns[k] = cat
+
 (* ---------------------------------------------------------------------- *)
 (* C07 (single step part): completion                                     *)
 (* ---------------------------------------------------------------------- *)
@@ -229,7 +255,7 @@ EnvelopeOk(ev) ==
 (* property)                                                              *)
 (* ---------------------------------------------------------------------- *)
 Clauses == <<"story_seq", "story_perm", "item_seq", "item_perm", "unnamed", "carried",
-             "fail_atomic", "reported", "completion", "contained", "envelope">>
+             "fail_atomic", "reported", "acted_upon", "completion", "contained", "envelope">>
 
 Verdict(ev) ==
   LET R == Merge(ev.pre, ev.msg)
@@ -241,6 +267,7 @@ Verdict(ev) ==
        carried     |-> CarriedOk(ev, R),
        fail_atomic |-> FailAtomicOk(ev),
        reported    |-> ReportedOk(ev, R),
+       acted_upon  |-> ActedUponOk(ev),
        completion  |-> CompletionOk(ev),
        contained   |-> ContainedOk(ev),
        envelope    |-> EnvelopeOk(ev) ]
